@@ -4,6 +4,7 @@ import (
 	"bytes"
 	"fmt"
 	"sync"
+	"time"
 
 	gnet "github.com/panjf2000/gnet/v2"
 
@@ -23,8 +24,8 @@ type connInfo struct {
 	localReq  bool // a local close was requested for it
 	traffic   int
 	badAfter  bool
-	unflushed bool     // ReadFrom without a following Flush: outside the property's write operations
-	untracked bool     // an asynchronous write without callback was issued: effect point unknown to the oracle
+	unflushed bool // ReadFrom without a following Flush: outside the property's write operations
+	untracked bool // an asynchronous write without callback was issued: effect point unknown to the oracle
 }
 
 type handler struct {
@@ -38,11 +39,24 @@ type handler struct {
 	cfg  *caseCfg
 	nCbs int
 	w    *tr.Writer
+	cur  *connInfo // connection of the innermost callback in progress
 }
 
 func (h *handler) OnBoot(eng gnet.Engine) gnet.Action {
 	h.eng = eng
 	return gnet.None
+}
+
+// OnShutdown runs on the stopper goroutine right before the exit task is sent to the loops:
+// this is the moment the `stop` request enters the loop's input stream.
+func (h *handler) OnShutdown(gnet.Engine) {
+	h.rec.mu.Lock()
+	if !h.rec.stopLogged {
+		h.rec.stopLogged = true
+		h.rec.shutdown = true
+		h.rec.add("op", tr.L("stop"))
+	}
+	h.rec.mu.Unlock()
 }
 
 func (h *handler) info(c gnet.Conn) *connInfo {
@@ -216,6 +230,15 @@ func (h *handler) payload(n int) []byte {
 }
 
 func (h *handler) pickAction(ci *connInfo, cb string) gnet.Action {
+	if h.cfg.scenario != "" {
+		if h.cfg.scenario == "shutdown-from-onclose" && cb == "close" {
+			h.rec.mu.Lock()
+			h.rec.shutdown = true
+			h.rec.mu.Unlock()
+			return gnet.Shutdown
+		}
+		return gnet.None
+	}
 	p := h.rnd.Intn(1000)
 	switch {
 	case p < h.cfg.pClose:
@@ -234,6 +257,13 @@ func (h *handler) pickAction(ci *connInfo, cb string) gnet.Action {
 
 // script performs a random list of API calls on the connection inside a callback.
 func (h *handler) script(ci *connInfo, cb string) {
+	prev := h.cur
+	h.cur = ci
+	defer func() { h.cur = prev }()
+	if h.cfg.scenario != "" {
+		h.scenarioScript(ci, cb)
+		return
+	}
 	n := h.rnd.Intn(h.cfg.maxCalls + 1)
 	for i := 0; i < n; i++ {
 		h.oneCall(ci, cb)
@@ -274,6 +304,37 @@ func (h *handler) oneCall(ci *connInfo, cb string) {
 		return
 	}
 	wsz := h.rnd.Pick(h.cfg.writeSizes)
+	if h.cfg.pCross > 0 && h.rnd.Chance(h.cfg.pCross) {
+		// act on another open connection of this loop from inside this callback
+		var others []*connInfo
+		h.mu.Lock()
+		for _, o := range h.all {
+			if o != ci && o.opened && !o.closed && !o.udp {
+				others = append(others, o)
+			}
+		}
+		h.mu.Unlock()
+		if len(others) > 0 {
+			o := others[h.rnd.Intn(len(others))]
+			if h.cfg.crossCloseOnly {
+				h.doCall(o, "elclose", 0, nil, false)
+				return
+			}
+			switch h.rnd.Intn(5) {
+			case 0:
+				h.doCall(o, "elclose", 0, nil, false)
+			case 1:
+				h.doCall(o, "write", 0, h.payload(h.rnd.Pick([]int{1, 100, 3000})), false)
+			case 2:
+				h.doCall(o, "flush", 0, nil, false)
+			case 3:
+				h.doCall(o, "outbuf", 0, nil, false)
+			default:
+				h.doCall(o, "close", 0, nil, false)
+			}
+			return
+		}
+	}
 	switch {
 	case k < 12:
 		h.doCall(ci, "read", sz, nil, false)
@@ -339,12 +400,21 @@ func segArgs(segs [][]byte) []string {
 
 type sink struct{ bytes.Buffer }
 
+// hl builds the `h` input line of a handler call; calls on a connection other than the
+// one the callback is for are written `h on <cid> <call> ...`
+func (h *handler) hl(ci *connInfo, args ...string) tr.Line {
+	if h.cur != nil && h.cur != ci {
+		return tr.L("h", append([]string{"on", tr.I(ci.cid)}, args...)...)
+	}
+	return tr.L("h", args...)
+}
+
 func (h *handler) doCall(ci *connInfo, call string, n int, data []byte, cb bool) {
 	c := ci.c
 	rec := h.rec
 	switch call {
 	case "read":
-		rec.Op(tr.L("h", "read", tr.I(n)))
+		rec.Op(h.hl(ci, "read", tr.I(n)))
 		p := make([]byte, n)
 		m, err := c.Read(p)
 		es := "nil"
@@ -356,7 +426,7 @@ func (h *handler) doCall(ci *connInfo, call string, n int, data []byte, cb bool)
 		ci.consumed += m
 		h.checkInbound(ci, "read")
 	case "next":
-		rec.Op(tr.L("h", "next", tr.I(n)))
+		rec.Op(h.hl(ci, "next", tr.I(n)))
 		b, err := c.Next(n)
 		es := "nil"
 		if err != nil {
@@ -367,7 +437,7 @@ func (h *handler) doCall(ci *connInfo, call string, n int, data []byte, cb bool)
 		ci.consumed += len(b)
 		h.checkInbound(ci, "next")
 	case "peek":
-		rec.Op(tr.L("h", "peek", tr.I(n)))
+		rec.Op(h.hl(ci, "peek", tr.I(n)))
 		b, err := c.Peek(n)
 		es := "nil"
 		if err != nil {
@@ -379,13 +449,13 @@ func (h *handler) doCall(ci *connInfo, call string, n int, data []byte, cb bool)
 			rec.Fail("inbound-stream", "Peek-length", fmt.Sprintf("cid %d Peek(%d) returned %d bytes", ci.cid, n, len(b)))
 		}
 	case "discard":
-		rec.Op(tr.L("h", "discard", tr.I(n)))
+		rec.Op(h.hl(ci, "discard", tr.I(n)))
 		m, _ := c.Discard(n)
 		rec.Obs(tr.L("hr", tr.I(ci.cid), "discard", tr.I(m)))
 		ci.consumed += m
 		h.checkInbound(ci, "discard")
 	case "writeto":
-		rec.Op(tr.L("h", "writeto"))
+		rec.Op(h.hl(ci, "writeto"))
 		var s sink
 		m, err := c.WriteTo(&s)
 		rec.Obs(tr.L("hr", tr.I(ci.cid), "writeto", tr.X(s.Bytes()), tr.I(int(m)), errSym(err)))
@@ -393,10 +463,10 @@ func (h *handler) doCall(ci *connInfo, call string, n int, data []byte, cb bool)
 		ci.consumed += s.Len()
 		h.checkInbound(ci, "writeto")
 	case "inbuf":
-		rec.Op(tr.L("h", "inbuf"))
+		rec.Op(h.hl(ci, "inbuf"))
 		rec.Obs(tr.L("hr", tr.I(ci.cid), "inbuf", tr.I(c.InboundBuffered())))
 	case "outbuf":
-		rec.Op(tr.L("h", "outbuf"))
+		rec.Op(h.hl(ci, "outbuf"))
 		ob := c.OutboundBuffered()
 		rec.Obs(tr.L("hr", tr.I(ci.cid), "outbuf", tr.I(ob)))
 		rec.mu.Lock()
@@ -406,7 +476,7 @@ func (h *handler) doCall(ci *connInfo, call string, n int, data []byte, cb bool)
 			rec.Fail("outbound-count", "OutboundBuffered", fmt.Sprintf("cid %d OutboundBuffered %d != accepted %d - handed %d", ci.cid, ob, len(ci.accepted), handed))
 		}
 	case "write":
-		rec.Op(tr.L("h", "write", tr.X(data)))
+		rec.Op(h.hl(ci, "write", tr.X(data)))
 		m, err := c.Write(data)
 		rec.Obs(tr.L("hr", tr.I(ci.cid), "write", tr.I(m), errSym(err)))
 		if err == nil && !ci.udp {
@@ -414,7 +484,7 @@ func (h *handler) doCall(ci *connInfo, call string, n int, data []byte, cb bool)
 		}
 	case "writev":
 		segs := splitSegs(data, n)
-		rec.Op(tr.L("h", append([]string{"writev"}, segArgs(segs)...)...))
+		rec.Op(h.hl(ci, append([]string{"writev"}, segArgs(segs)...)...))
 		cp := make([][]byte, len(segs))
 		copy(cp, segs)
 		m, err := c.Writev(cp)
@@ -423,7 +493,7 @@ func (h *handler) doCall(ci *connInfo, call string, n int, data []byte, cb bool)
 			ci.accepted = append(ci.accepted, bytes.Join(segs, nil)...)
 		}
 	case "flush":
-		rec.Op(tr.L("h", "flush"))
+		rec.Op(h.hl(ci, "flush"))
 		err := c.Flush()
 		es := errSym(err)
 		if err != nil && err.Error() == "server is going to be shutdown" {
@@ -432,7 +502,7 @@ func (h *handler) doCall(ci *connInfo, call string, n int, data []byte, cb bool)
 		rec.Obs(tr.L("hr", tr.I(ci.cid), "flush", es))
 		ci.unflushed = false
 	case "readfrom":
-		rec.Op(tr.L("h", "readfrom", tr.X(data)))
+		rec.Op(h.hl(ci, "readfrom", tr.X(data)))
 		m, err := c.ReadFrom(bytes.NewReader(data))
 		rec.Obs(tr.L("hr", tr.I(ci.cid), "readfrom", tr.I(int(m)), errSym(err)))
 		ci.accepted = append(ci.accepted, data...)
@@ -440,20 +510,20 @@ func (h *handler) doCall(ci *connInfo, call string, n int, data []byte, cb bool)
 			ci.unflushed = true
 		}
 	case "asyncwrite":
-		rec.Op(tr.L("h", "asyncwrite", tr.X(data), tr.B(cb)))
+		rec.Op(h.hl(ci, "asyncwrite", tr.X(data), tr.B(cb)))
 		err := c.AsyncWrite(data, h.acb("write", ci, cb, data))
 		rec.Obs(tr.L("hr", tr.I(ci.cid), "asyncwrite", errSym(err)))
 	case "asyncwritev":
 		segs := splitSegs(data, n)
-		rec.Op(tr.L("h", append([]string{"asyncwritev", tr.B(cb)}, segArgs(segs)...)...))
+		rec.Op(h.hl(ci, append([]string{"asyncwritev", tr.B(cb)}, segArgs(segs)...)...))
 		err := c.AsyncWritev(segs, h.acb("writev", ci, cb, data))
 		rec.Obs(tr.L("hr", tr.I(ci.cid), "asyncwritev", errSym(err)))
 	case "wake":
-		rec.Op(tr.L("h", "wake", tr.B(cb)))
+		rec.Op(h.hl(ci, "wake", tr.B(cb)))
 		err := c.Wake(h.acb("wake", ci, cb, nil))
 		rec.Obs(tr.L("hr", tr.I(ci.cid), "wake", errSym(err)))
 	case "close":
-		rec.Op(tr.L("h", "close", tr.B(cb)))
+		rec.Op(h.hl(ci, "close", tr.B(cb)))
 		var err error
 		if cb {
 			err = c.CloseWithCallback(h.acb("close", ci, true, nil))
@@ -463,7 +533,7 @@ func (h *handler) doCall(ci *connInfo, call string, n int, data []byte, cb bool)
 		ci.localReq = true
 		rec.Obs(tr.L("hr", tr.I(ci.cid), "close", errSym(err)))
 	case "elclose":
-		rec.Op(tr.L("h", "elclose"))
+		rec.Op(h.hl(ci, "elclose"))
 		ci.localReq = true
 		err := c.EventLoop().Close(c)
 		es := errSym(err)
@@ -506,5 +576,81 @@ func (h *handler) acb(kind string, ci *connInfo, want bool, data []byte) gnet.As
 		}
 		h.rec.Obs(tr.L("acb", kind, tr.I(cid), es))
 		return nil
+	}
+}
+
+// scenarioScript: the deterministic handler behaviour of the named scenarios (regression
+// corpus for the defects found and fixed; see corpus/C0x/*.trace)
+func (h *handler) scenarioScript(ci *connInfo, cb string) {
+	big := func(n int) []byte {
+		b := make([]byte, n)
+		for i := range b {
+			b[i] = byte('A' + i%23)
+		}
+		return b
+	}
+	switch h.cfg.scenario {
+	case "read-after-close":
+		if cb == "traffic" {
+			h.doCall(ci, "next", -1, nil, false)
+			h.doCall(ci, "elclose", 0, nil, false)
+		}
+	case "write-after-close", "shutdown-from-onclose":
+		if cb == "traffic" && ci.traffic == 1 {
+			h.doCall(ci, "next", -1, nil, false)
+			h.doCall(ci, "write", 0, big(10), false) // fails: EPIPE injected
+			h.doCall(ci, "write", 0, big(20), false)
+			h.doCall(ci, "writev", 2, big(30), false)
+			h.doCall(ci, "readfrom", 0, big(5), false)
+			h.doCall(ci, "flush", 0, nil, false)
+		}
+	case "onopen-reply-order":
+		if cb == "open" {
+			h.doCall(ci, "write", 0, big(400000), false)
+		}
+		if cb == "traffic" {
+			h.doCall(ci, "next", -1, nil, false)
+		}
+	case "lt-partial-flush":
+		if cb == "traffic" && ci.traffic == 1 {
+			h.doCall(ci, "next", -1, nil, false)
+			h.doCall(ci, "readfrom", 0, big(400000), false)
+			h.doCall(ci, "flush", 0, nil, false)
+			h.doCall(ci, "write", 0, big(1000), false)
+		} else if cb == "traffic" {
+			h.doCall(ci, "next", -1, nil, false)
+		}
+	case "writev-1500":
+		if cb == "traffic" {
+			h.doCall(ci, "next", -1, nil, false)
+			h.doCall(ci, "writev", 1500, big(3000), false)
+		}
+	case "stale-del":
+		if cb == "traffic" {
+			h.doCall(ci, "next", -1, nil, false)
+			if ci.traffic < 2 {
+				time.Sleep(8 * time.Millisecond) // let the other peer's data arrive: from now on both are readable
+				return
+			}
+			h.mu.Lock()
+			var other *connInfo
+			for _, o := range h.all {
+				if o != ci && o.opened && !o.closed {
+					other = o
+				}
+			}
+			h.mu.Unlock()
+			if other != nil {
+				h.doCall(other, "elclose", 0, nil, false)
+			}
+		}
+	case "queued-write-after-close":
+		if cb == "traffic" && ci.traffic == 1 {
+			h.doCall(ci, "next", -1, nil, false)
+			h.doCall(ci, "write", 0, big(300000), false) // partly buffered (small SO_SNDBUF)
+			h.doCall(ci, "flush", 0, nil, false)         // ET + chunk: re-arms itself through a write task
+			h.doCall(ci, "elclose", 0, nil, false)
+			h.doCall(ci, "readfrom", 0, big(64), false) // refills the buffer of the closed connection
+		}
 	}
 }
